@@ -22,6 +22,12 @@ def run(prop, tier):
             if op in cpu.BLOCK_OPS or (op == 0xEF and pre is not None):
                 u["block_n"] = 1
             units.append(u)
+    # control-flow opcodes behind a PRE byte (the fused instruction is one byte longer)
+    for pre in ((0x32, 0x21) if tier == "quick" else sorted(cpu.PRE_BYTES)):
+        if pre in pres:
+            continue
+        for op in CONTROL:
+            units.append(dict(pre=pre, opcode=op, sym_addr=True, branch_check=True, wall_s=600))
     units.sort(key=lambda u: 0 if u["opcode"] in (0xFE, 0x56, 0x5E, 0xF3, 0xFB) else 1)
     reps = common.run_units("contracts.cpu:unit_entry", units, budget=700)
     reps += common.run_units("contracts.cpu_lemmas:unit_lemmas", [dict(kind="inverse-pair-lemmas")], budget=300)
